@@ -258,6 +258,7 @@ pub fn run_d(seed: u64, ntraces: usize, only: Option<u64>) {
                 else if d == 10 {   // inbound battery: every routing variant for a transfer without data, the main ones for transfers with data and deployments
                     for v in 0..21u64 { script.push(1600 + v); }
                     script.extend([1700u64, 20, 20, 1702, 1708, 1709, 1711, 1713, 1714, 1716, 1808, 1800, 1802, 1809, 1811, 1813, 1815, 1816, 1818, 1718, 195, 198, 2300, 2305, 2316, 2309, 2302, 2314]);
+                    script.extend([2300u64, 2300, 2300, 2300, 2300, 2300]);      // six consecutive inbound links from the peer: one of every requested manager type (2, 3, 4, 1, 0, 5 in some rotation)
                 }
                 else if d == 11 {   // the service is paused while a transfer with data is in flight: failed and successful delivery, direct and hub-wrapped
                     script.extend([1700u64, 10, 21, 20, 10, 1702, 10, 20, 20, 10, 1700, 21, 10, 20, 10, 1700, 1700, 21, 24, 20, 20]);
